@@ -8,6 +8,8 @@ from . import harness
 
 REGISTRY = {
     'C06': 'contracts.c06_units',
+    'C13': 'contracts.c13_slicer',
+    'C14': 'contracts.c14_parse',
 }
 
 
